@@ -24,3 +24,5 @@ import Props.C02T
 #print axioms C02T.counters_are_sizes
 #print axioms C02T.path_listings_exact
 #print axioms C02T.observations_depend_on_content_only
+#print axioms C02T.partial_adj_ops_leave_other_families
+#print axioms C02T.partial_adj_ops_on_named_families
